@@ -533,7 +533,7 @@ func validDocs(r *rand.Rand) map[int][]string {
 }
 
 var spliceTokens = []string{"[", "]", "(", ")", ",", ";", ":", "=", " ", "\n", "  \n", "\t\n", "\r\n", "'", "\"", "/", "MISSING=", "GAP=", "DATATYPE=", "FORMAT", "MATRIX", "TRANSLATE",
-	"BEGIN TREES;", "END;", "TREE t = ", "DIMENSIONS NTAX=", "NTAX=", "<clade>", "</clade>", "<name>", "&", "<", "{", "}", "\"children\":[", "null", "1e999", "-1", "\x00", "\xff", "é"}
+	"BEGIN TREES;", "END;", "TREE t = ", "DIMENSIONS NTAX=", "NTAX=", "<clade>", "</clade>", "<name>", "&", "<", "{", "}", "\"children\":[", "null", "1e999", "-1", "NTAX=9223372036854775807;", "NCHAR=9223372036854775807;", "NTAX=99999999999999999999;", "NTAX=-3;", "9223372036854775807", "\x00", "\xff", "é"}
 
 func mutate(r *rand.Rand, doc string) string {
 	b := []byte(doc)
